@@ -214,6 +214,8 @@ def random_msl_cfgs(rng, truth):
                     ns += 1
                 resl.append([e["group"], e["binding"], b, t, s])
             per[ep["name"]] = {"resources": resl}
+            if rng.chance(1, 2):
+                per[ep["name"]]["sizes_buffer"] = rng.range(20, 30)
         cfgs.append({"tag": tag, "fake": fake, "per_ep": per})
     return cfgs
 
@@ -435,6 +437,18 @@ def check_msl(ctx, st, src, truth, cfg, out, model, viol):
         got = {}
         for decl, pname, attr in ent["params"]:
             slot = T.msl_resource_slot(attr)
+            if pname == "_buffer_sizes":
+                sb = (per or {}).get(ep["name"], {}).get("sizes_buffer") if has_map else None
+                if sb is not None:
+                    if slot != ("buffer", sb):
+                        viol("msl:sizes-buffer-slot", "MSL %s: _buffer_sizes bound at %s, SizesBuffer option says buffer(%d)" % (n, slot, sb), cfg)
+                elif cfg["fake"]:
+                    if slot != "fake":
+                        viol("msl:sizes-buffer-slot", "MSL %s: _buffer_sizes bound at %s under FakeMissingBindings" % (n, slot), cfg)
+                else:
+                    viol("msl:sizes-buffer-without-slot",
+                         "MSL %s needs the buffer-sizes argument (runtime-sized array) but no SizesBuffer slot is configured and "
+                         "FakeMissingBindings=false: compilation succeeded and the parameter has %s" % (n, "no attribute at all" if attr is None else attr), cfg)
             if pname in by_name:
                 got[pname] = slot
             elif slot is not None and pname not in ("_buffer_sizes",):
@@ -626,6 +640,32 @@ def check_glsl(ctx, st, src, truth, cfg, outs, model, viol):
 
 # ---------------------------------------------------------------------------
 
+def run_model_parallel(exe, vals, workers=6):
+    """vcheck.run_model over several processes (the extracted tool is single-threaded)"""
+    if len(vals) < 2 * workers:
+        return vcheck.run_model(exe, vals) if vals else []
+    from concurrent.futures import ThreadPoolExecutor
+    parts = [vals[i::workers] for i in range(workers)]
+    with ThreadPoolExecutor(workers) as ex:
+        outs = list(ex.map(lambda p: vcheck.run_model(exe, p), parts))
+    res = [None] * len(vals)
+    for w, o in enumerate(outs):
+        res[w::workers] = o
+    return res
+
+
+def multi_runs(exe, groups):
+    """groups: list of (ir, [run...]); returns the flat list of results in order ({"ok":False,...} replicated on a decode error)"""
+    outs = run_model_parallel(exe, [{"ir": ir, "runs": runs} for ir, runs in groups])
+    flat = []
+    for (ir, runs), o in zip(groups, outs):
+        if o.get("ok") and "results" in o:
+            flat += o["results"]
+        else:
+            flat += [o] * len(runs)
+    return flat
+
+
 def spv_key(mm):
     d = (mm.get("detail") or "").strip().replace(" ", "+")
     if d.startswith("extra-variable"):
@@ -647,25 +687,27 @@ def run_generated(ctx, tools, exe, st, n_modules):
         jobs.append({"id": i, "src": src, "want": ["ir", "validate", "spv", "hlsl", "msl", "glsl"],
                      "opts": {"spv": spv, "hlsl": h, "msl": m, "glsl": g}})
     res = nagarun.parallel_batches(tools["ifacedrive"], "compile", jobs, per_job_timeout=30.0, chunk=16)
-    # ---- model runs
-    vals, meta = [], []
+    # ---- model runs (one decode of the IR per module)
+    groups, meta = [], []
     for i, md in enumerate(mods):
         r = res.get(i)
         if r is None or "ir" not in r:
             continue
+        runs = []
         for c in md["spv"]:
             o = r["spv"].get(c["tag"], {})
             if "words" in o:
-                vals.append({"mode": "spv", "ir": r["ir"], "words": o["words"], "fps": c["force_point_size"]})
+                runs.append({"mode": "spv", "words": o["words"], "fps": c["force_point_size"]})
                 meta.append((i, "spv", c))
         ncfg = max(len(md["hlsl"]), len(md["msl"]), len(md["glsl"]))
         for k in range(ncfg):
             h, m, g = md["hlsl"][k % len(md["hlsl"])], md["msl"][k % len(md["msl"])], md["glsl"][k % len(md["glsl"])]
-            v = {"mode": "text", "ir": r["ir"]}
+            v = {"mode": "text"}
             v.update(model_text_opts(h, m, g))
-            vals.append(v)
+            runs.append(v)
             meta.append((i, "text", (h if k < len(md["hlsl"]) else None, m if k < len(md["msl"]) else None, g if k < len(md["glsl"]) else None)))
-    outs = vcheck.run_model(exe, vals)
+        groups.append((r["ir"], runs))
+    outs = multi_runs(exe, groups)
     distinct = set()
     for (i, kind, cfg), o in zip(meta, outs):
         md = mods[i]
@@ -735,9 +777,9 @@ def run_probes(ctx, tools, exe, st):
             ctx.violation("attribute spelling '%s' is rejected: %s" % (tag, r.get("err") or r.get("crash")),
                           files={"module.wgsl": src}, key="attr-form:%s:rejected" % tag)
             continue
-        vals.append({"mode": "spv", "ir": r["ir"], "words": (r["spv"]["v"].get("words") or []), "fps": False})
+        vals.append((r["ir"], [{"mode": "spv", "words": (r["spv"]["v"].get("words") or []), "fps": False}]))
         meta.append((tag, src, want))
-    outs = vcheck.run_model(exe, vals) if vals else []
+    outs = multi_runs(exe, vals)
     for (tag, src, want), o in zip(meta, outs):
         st.add("attribute_probes")
         if not o.get("ok"):
@@ -779,11 +821,13 @@ def run_corpus(ctx, tools, exe, st, limit):
         r = res.get(n) or {}
         if "ir" not in r:
             continue
+        runs = []
         for tag, o in (r.get("spv") or {}).items():
             if "words" in o:
-                vals.append({"mode": "spv", "ir": r["ir"], "words": o["words"], "fps": tag.endswith("fps")})
+                runs.append({"mode": "spv", "words": o["words"], "fps": tag.endswith("fps")})
                 meta.append((n, s, tag))
-    outs = vcheck.run_model(exe, vals) if vals else []
+        vals.append((r["ir"], runs))
+    outs = multi_runs(exe, vals)
     for (n, s, tag), o in zip(meta, outs):
         if not o.get("ok"):
             st.add("corpus_undecodable_ir")
@@ -835,9 +879,9 @@ def run(ctx):
         broken = (broken or "") + " extraction failed: %s" % str(e)[-400:]
     nd = 0
     if exe:
-        nd += run_generated(ctx, tools, exe, st, ctx.scale(220, 6000))
+        nd += run_generated(ctx, tools, exe, st, ctx.scale(140, 6000))
         run_probes(ctx, tools, exe, st)
-        nd += run_corpus(ctx, tools, exe, st, ctx.scale(90, 1000))
+        nd += run_corpus(ctx, tools, exe, st, ctx.scale(60, 1000))
     ctx.cov["counters"] = st.c
     ctx.cov["evaluations"] = sum(st.c.get(k, 0) for k in ("spv_binaries_checked", "hlsl_registers_compared", "msl_entry_points_compared",
                                                           "glsl_entry_points_compared", "corpus_binaries_checked", "attribute_probes",
